@@ -3,6 +3,7 @@ package main
 import (
 	"fmt"
 	"time"
+	"verif/harness/props/c01b"
 
 	"github.com/jcmturner/gokrb5/v8/credentials"
 	"github.com/jcmturner/gokrb5/v8/messages"
@@ -28,18 +29,30 @@ func defectCatalogue() []defect {
 			r.encEType = map[int32]int32{17: 18, 18: 17, 19: 20, 20: 19, 23: 17, 16: 23}[r.et]
 		}},
 		{"wrong-realm", true, func(c *Ctx, s *testService, r *recipe, d time.Duration) { r.tktRealm = "OTHER.REALM" }},
-		{"wrong-sname", true, func(c *Ctx, s *testService, r *recipe, d time.Duration) { r.tktSName = []string{"HTTP", "other.test.gokrb5"} }},
-		{"start-outside", true, func(c *Ctx, s *testService, r *recipe, d time.Duration) { r.start = r.now.Add(d + 3*time.Second).Truncate(time.Second) }},
-		{"start-inside", false, func(c *Ctx, s *testService, r *recipe, d time.Duration) { r.start = r.now.Add(d - 3*time.Second).Truncate(time.Second) }},
+		{"wrong-sname", true, func(c *Ctx, s *testService, r *recipe, d time.Duration) {
+			r.tktSName = []string{"HTTP", "other.test.gokrb5"}
+		}},
+		{"start-outside", true, func(c *Ctx, s *testService, r *recipe, d time.Duration) {
+			r.start = r.now.Add(d + 3*time.Second).Truncate(time.Second)
+		}},
+		{"start-inside", false, func(c *Ctx, s *testService, r *recipe, d time.Duration) {
+			r.start = r.now.Add(d - 3*time.Second).Truncate(time.Second)
+		}},
 		{"start-absent", false, func(c *Ctx, s *testService, r *recipe, d time.Duration) { r.start = time.Time{} }},
-		{"end-outside", true, func(c *Ctx, s *testService, r *recipe, d time.Duration) { r.end = r.now.Add(-d - 3*time.Second).Truncate(time.Second) }},
-		{"end-inside", false, func(c *Ctx, s *testService, r *recipe, d time.Duration) { r.end = r.now.Add(-d + 3*time.Second).Truncate(time.Second) }},
+		{"end-outside", true, func(c *Ctx, s *testService, r *recipe, d time.Duration) {
+			r.end = r.now.Add(-d - 3*time.Second).Truncate(time.Second)
+		}},
+		{"end-inside", false, func(c *Ctx, s *testService, r *recipe, d time.Duration) {
+			r.end = r.now.Add(-d + 3*time.Second).Truncate(time.Second)
+		}},
 		{"flip-ticket", true, func(c *Ctx, s *testService, r *recipe, d time.Duration) { r.flipTkt = c.R.Intn(1 << 20) }},
 		{"trunc-ticket", true, func(c *Ctx, s *testService, r *recipe, d time.Duration) { r.truncTkt = c.R.Intn(60) }},
 		{"flip-auth", true, func(c *Ctx, s *testService, r *recipe, d time.Duration) { r.flipAuth = c.R.Intn(1 << 20) }},
 		{"trunc-auth", true, func(c *Ctx, s *testService, r *recipe, d time.Duration) { r.truncAuth = c.R.Intn(40) }},
 		{"cname-mismatch", true, func(c *Ctx, s *testService, r *recipe, d time.Duration) { r.authCName = []string{"administrator"} }},
-		{"cname-prefix", true, func(c *Ctx, s *testService, r *recipe, d time.Duration) { r.authCName = append(append([]string{}, r.cname...), "admin") }},
+		{"cname-prefix", true, func(c *Ctx, s *testService, r *recipe, d time.Duration) {
+			r.authCName = append(append([]string{}, r.cname...), "admin")
+		}},
 		{"crealm-mismatch", true, func(c *Ctx, s *testService, r *recipe, d time.Duration) { r.authCRealm = "EVIL.REALM" }},
 		{"ticket-usage", true, func(c *Ctx, s *testService, r *recipe, d time.Duration) { r.tktUsage = 3 }},
 		{"auth-usage", true, func(c *Ctx, s *testService, r *recipe, d time.Duration) { r.authUsage = 7 }},
@@ -292,4 +305,5 @@ func containsDefect(cat []defect, defs []int, name string) bool {
 	return false
 }
 
-func init() { props["C01"] = c01 }
+// C01 = sealed-content stream (c01) followed by the wire-bytes stream (props/c01b)
+func init() { props["C01"] = func(c *Ctx) { c01(c); c01b.Run(c) } }
